@@ -107,6 +107,47 @@ def gen_op(rng, info):
     return {"k": k}
 
 
+def acyclic(pairs):
+    """no directed cycle among the edges (walk enumeration terminates only then)"""
+    out = {}
+    for a, b in pairs:
+        out.setdefault(a, []).append(b)
+    state = {}
+    for root in list(out):
+        if root in state:
+            continue
+        stack = [(root, iter(out.get(root, [])))]
+        state[root] = 1
+        while stack:
+            node, it = stack[-1]
+            nxt = next(it, None)
+            if nxt is None:
+                state[node] = 2
+                stack.pop()
+            elif state.get(nxt) == 1:
+                return False
+            elif nxt not in state:
+                state[nxt] = 1
+                stack.append((nxt, iter(out.get(nxt, []))))
+    return True
+
+
+def walk_count(pairs, starts):
+    """number of walks that start in `starts` (acyclic edges): the number of rows find_relatives builds"""
+    import sys
+    sys.setrecursionlimit(10000)
+    out = {}
+    for a, b in pairs:
+        out.setdefault(a, []).append(b)
+    memo = {}
+
+    def walks(n):
+        if n not in memo:
+            memo[n] = 1 + sum(walks(m) for m in out.get(n, []))
+        return memo[n]
+    return sum(walks(s) for s in starts)
+
+
 def apply(G, op, sc):
     """perform op on G; returns (canonical output, problems with caller-owned arguments)"""
     import pandas as pd
@@ -172,8 +213,11 @@ def apply(G, op, sc):
                 start = args["nodes"].loc[args["nodes"]["id"].isin(edges["Src"].head(3)), ["id"]].copy()
                 args["edges"], args["start"] = edges, start
                 before["edges"], before["start"] = table_fp(edges), table_fp(start)
-                if (edges["Src"] == edges["Trg"]).any():
-                    return {"skipped": "self-loop"}, problems
+                pairs = [(int(a), int(b)) for a, b in zip(edges["Src"], edges["Trg"])]
+                if fn[-1] == "a":
+                    pairs = [(b, a) for a, b in pairs]
+                if not acyclic(pairs) or walk_count(pairs, [int(x) for x in start["id"]]) > 5000:
+                    return {"skipped": "cyclic edges (the walk enumeration has no cut-off) or too many walks"}, problems
                 out = nav.find_relatives(nodes=start, nodes_key_col="id", edges=edges, relative_type=fn[-1], keep_paths=op["keep_paths"])
             for n, v in args.items():
                 if table_fp(v) != before[n]:
@@ -183,6 +227,11 @@ def apply(G, op, sc):
             return out_canon(G.get_neighboring_nodes_by_id(op["id"], op["relation"])), problems
         if k == "paths":
             types = list(op["types"])
+            tids = [G.reference_type_by_browsename(t) for t in types]
+            sel = G.references[G.references["ReferenceType"].isin(tids)]
+            pairs = [(int(a), int(b)) for a, b in zip(sel["Src"], sel["Trg"])]
+            if not acyclic(pairs) or walk_count(pairs, [G.object_by_browsename(op["root"])]) > 5000:
+                return {"skipped": "cyclic edges or too many walks"}, problems
             out = G.create_node_paths_by_reference_types(op["root"], types)
             if types != op["types"]:
                 problems.append("create_node_paths_by_reference_types modified the list passed in")
